@@ -58,13 +58,14 @@ def parseRecs : Nat → List String → List Rec × List String
       match nat? a, bytes? b with | some f, some d => one (.app f d) rest | _, _ => ([.bad "app"], [])
     | "ren" :: a :: b :: rest =>
       match nat? a, nat? b with | some f, some g => one (.ren f g) rest | _, _ => ([.bad "ren"], [])
-    | "com" :: a :: b :: rest =>
-      match nat? a, nat? b with | some f, some o => one (.com f o) rest | _, _ => ([.bad "com"], [])
     | "eof" :: a :: b :: rest =>
       match nat? a, nat? b with | some f, some o => one (.eof f o) rest | _, _ => ([.bad "eof"], [])
     | "in" :: a :: b :: c :: rest =>
       match nat? a, nat? b, bool? c with
       | some f, some o, some p => one (.inp f o p) rest | _, _, _ => ([.bad "in"], [])
+    | "com" :: a :: b :: c :: rest =>
+      match nat? a, nat? b, nat? c with
+      | some f, some o, some id => one (.com f o id) rest | _, _, _ => ([.bad "com"], [])
     | "ack" :: a :: b :: c :: rest =>
       match nat? a, nat? b, nat? c with
       | some f, some o, some id => one (.ack f o id) rest | _, _, _ => ([.bad "ack"], [])
@@ -84,7 +85,7 @@ def renderRec : Rec → String
   | .new f => s!"new {f}" | .app f b => s!"app {f} {Hex.enc b}" | .ren f g => s!"ren {f} {g}"
   | .trunc f => s!"trunc {f}" | .up => "up" | .disc f => s!"disc {f}" | .scan => "scan"
   | .inp f o p => s!"in {f} {o} {ofBool p}" | .out f o q id => s!"out {f} {o} {q} {id}"
-  | .ack f o id => s!"ack {f} {o} {id}" | .com f o => s!"com {f} {o}" | .eof f n => s!"eof {f} {n}"
+  | .ack f o id => s!"ack {f} {o} {id}" | .com f o id => s!"com {f} {o} {id}" | .eof f n => s!"eof {f} {n}"
   | .idle => "idle" | .stuck => "stuck" | .crash => "crash" | .died => "died"
   | .saved f o => unwords (s!"saved {f} {o.length}" :: o.map (fun p => s!"{Hex.enc p.1} {p.2}"))
   | .bad t => s!"bad:{t}"
@@ -92,7 +93,7 @@ def renderRec : Rec → String
 def recName : Rec → String
   | .new _ => "new" | .app _ _ => "app" | .ren _ _ => "ren" | .trunc _ => "trunc" | .up => "up"
   | .disc _ => "disc" | .scan => "scan" | .inp _ _ _ => "in" | .out _ _ _ _ => "out" | .ack _ _ _ => "ack"
-  | .com _ _ => "com" | .eof _ _ => "eof" | .idle => "idle" | .stuck => "stuck" | .crash => "crash"
+  | .com _ _ _ => "com" | .eof _ _ => "eof" | .idle => "idle" | .stuck => "stuck" | .crash => "crash"
   | .died => "died" | .saved _ _ => "saved" | .bad _ => "bad"
 
 /-! ### replay -/
@@ -175,15 +176,15 @@ def stepRec (cfg : Cfg) (t : Table) (r : R) (rest : List Rec) : Rec → Option R
     let j ← r.s.jobs f
     if r.s.inLog == before && j.w.curOffset == size then pure r else none
   | .out f off seq id => do
-    let e ← r.s.inflight.find? fun e => e.ino == f && e.off == off && e.seq == seq && !r.s.delivered.contains e
-    if idOf t e.data ≠ some id then none
+    let e ← r.s.inflight.find? fun e =>
+      e.ino == f && e.off == off && e.seq == seq && idOf t e.data == some id && !r.s.delivered.contains e
     app1 cfg r (.deliver e)
   | .ack f off id => do
-    let e ← r.s.delivered.find? fun e => e.ino == f && e.off == off && !r.ackedRun.contains e
-    if idOf t e.data ≠ some id then none
+    let e ← r.s.delivered.find? fun e =>
+      e.ino == f && e.off == off && idOf t e.data == some id && !r.ackedRun.contains e
     (app1 cfg r (.ack e)).map fun r => { r with ackedRun := e :: r.ackedRun }
-  | .com f off => do
-    let e ← (dangling r).find? fun e => e.ino == f && e.off == off
+  | .com f off id => do
+    let e ← (dangling r).find? fun e => e.ino == f && e.off == off && idOf t e.data == some id
     let r ← app1 cfg r (.commit e)
     if r.s.panicked then none else pure r
   | .idle =>
